@@ -13,6 +13,7 @@ from __future__ import annotations
 
 import ast
 import builtins
+import collections
 import dataclasses
 import functools
 import hashlib
@@ -330,6 +331,13 @@ class Interp:
             return self.call_value(f.__func__, (f.__self__,) + tuple(args), kwargs)
         if is_repo_function(f):
             return self.call_closure(self.closure_of(f), args, kwargs)
+        if hasattr(f, "cache_clear") and is_repo_function(getattr(f, "__wrapped__", None)):
+            # functools.lru_cache around a repo function: the body is interpreted every time (a cache is transparent as long
+            # as it is cleared before the inputs change - the typestate rules of C15 cover the one cache picosvg has)
+            note = "functools.lru_cache treated as transparent (body re-evaluated at every call)"
+            if note not in self.ctx.notes:
+                self.ctx.notes.append(note)
+            return self.call_closure(self.closure_of(f.__wrapped__), args, kwargs)
         if not isinstance(f, type) and is_repo_class(type(f)):
             call = _static_lookup(type(f), "__call__")
             if call is not None and is_repo_function(call):
@@ -361,7 +369,7 @@ class Interp:
         # method-descriptor calls on concrete receivers (str.upper, list.append, dict.get ...)
         if contains_sym(args) or contains_sym(kwargs):
             recv = getattr(f, "__self__", None)
-            if isinstance(recv, (list, dict, tuple, set)) and getattr(f, "__name__", "") in _PLUMBING_METHODS:
+            if isinstance(recv, (list, dict, tuple, set, collections.deque)) and getattr(f, "__name__", "") in _PLUMBING_METHODS:
                 return f(*args, **kwargs)
             if f in _PLUMBING_FUNCS:
                 return f(*args, **kwargs)
@@ -390,7 +398,7 @@ class Interp:
         if model is not None:
             return model(*args, **kwargs)
         if contains_sym(args) or contains_sym(kwargs):
-            if cls in (tuple, list, dict, zip, enumerate, reversed, range, functools.partial):
+            if cls in (tuple, list, dict, zip, enumerate, reversed, range, functools.partial, collections.deque):
                 return cls(*args, **kwargs)
             raise EngineError(f"unmodelled constructor {cls.__name__} with symbolic arguments")
         return cls(*args, **kwargs)
@@ -1139,6 +1147,6 @@ def _static_lookup(cls, name):
 
 _PLUMBING_METHODS = {
     "append", "extend", "insert", "pop", "get", "items", "values", "keys", "update", "setdefault",
-    "copy", "clear", "index", "count", "reverse", "__getitem__", "__setitem__",
+    "copy", "clear", "index", "count", "reverse", "__getitem__", "__setitem__", "popleft", "appendleft",
 }
 _PLUMBING_FUNCS = set()
